@@ -301,4 +301,8 @@ class WirelessRouter(Router, discriminator="wireless-router"):
                     next_hop_ip_address=IPv4Address(route.get("next_hop_ip_address")),
                     metric=float(route.get("metric", 0)),
                 )
+        if config.get("default_route"):
+            next_hop_ip_address = config["default_route"].get("next_hop_ip_address", None)
+            if next_hop_ip_address:
+                router.route_table.set_default_route_next_hop_ip_address(next_hop_ip_address)
         return router
